@@ -34,7 +34,8 @@ def spellable(knames):
     depu = st.sampled_from([["dep", ["union", [["cls", "int"], ["cls", "float"]]], "pos"],
                             ["dep", ["union", [["cls", "int"], ["cls", "str"]]], "truthy"],
                             ["dep", ["union", [["cls", "list"], ["cls", "tuple"]]], "short"]])
-    return st.one_of(union, union, optional, st.just(["obj"]), lit, lst, cls, depu)
+    typ = cls.map(lambda c: ["type", c])  # type[A] (takes class objects; respelled type[Annotated[A, ...]])
+    return st.one_of(union, union, optional, st.just(["obj"]), lit, lst, cls, depu, typ)
 
 
 def case_strategy():
@@ -45,7 +46,7 @@ def case_strategy():
         h = draw(H.hierarchies(1, 5))
         knames = H.class_names(h)
         env = H.build(h)
-        corpus = G.value_corpus(knames)
+        corpus = G.value_corpus(knames) + [["clsobj", n] for n in knames] + [["clsobj", "int"], ["clsobj", "str"]]
         fit = G.fitting_fn(env, corpus)
         others = G.satisfiable(G.any_ann(knames, p_dep=0.2), fit)
         ann = st.one_of(spellable(knames), spellable(knames), others)
@@ -61,7 +62,11 @@ def case_strategy():
         if a[0] == "union":
             options += ["union-permute", "union-pipe", "union-tuple", "union-permute-pipe"]
             if len(a[1]) == 2 and ["cls", "NoneType"] in a[1]:
-                options += ["optional", "optional"]
+                options += ["optional", "optional", "tuple-none", "tuple-none"]
+            if len(a[1]) >= 3:
+                options += ["tuple-nested", "tuple-nested"]
+        if a[0] == "type" and len(a) == 2:
+            options += ["type-annotated-inside"] * 3
         if a[0] == "dep" and a[1][0] == "union":
             options += ["bound-pipe", "bound-tuple", "bound-pipe", "bound-tuple"]
         if a[0] == "obj":
@@ -107,6 +112,10 @@ def variant(spec):
         sp = {"union": "tuple"}
     elif how == "optional":
         sp = {"union": "optional"}
+    elif how in ("tuple-none", "tuple-nested"):
+        sp = {"union": how}
+    elif how == "type-annotated-inside":
+        sp = {"type_inner": "annotated"}
     elif how == "bound-pipe":
         sp = {"bound_union": "pipe"}
     elif how == "bound-tuple":
